@@ -122,6 +122,19 @@ func malformed(class string, addr string, real []byte, head *entry.Entry, rng *r
 			return real
 		}
 		return real[:1+rng.Intn(len(real)-1)]
+	case "real-payload-changed":
+		// a damaged copy of the real message: one byte of the head's payload differs, the claimed hash is the real one
+		pl, _ := hm["payload"].(string)
+		if len(pl) > 2 {
+			b := []byte(pl)
+			if b[1] == 'A' {
+				b[1] = 'B'
+			} else {
+				b[1] = 'A'
+			}
+			pl = string(b)
+		}
+		return msg([]interface{}{with("payload", pl)})
 	case "real-hash-alias":
 		// the real head announced under another CID of the same block: same digest, another codec or version
 		mhash := head.GetHash().Hash()
@@ -221,6 +234,12 @@ func wireCmd(args []string) int {
 			}
 		}
 	}
+	// a damaged copy of an announcement, several times, then the announcement itself: it must still be handled
+	for _, ch := range []string{"topic", "direct"} {
+		behaviours = append(behaviours, Behaviour{ID: "damaged-copy-then-real/" + ch, Steps: []Step{
+			{Action: "DeliverMalformed", Args: []interface{}{ch, "real-payload-changed"}}, {Action: "DeliverMalformed", Args: []interface{}{ch, "real-payload-changed"}},
+			{Action: "DeliverReal", Args: []interface{}{ch}}, {Action: "DeliverValid", Args: []interface{}{ch}}}})
+	}
 	for bi, b := range behaviours {
 		rng := rand.New(rand.NewSource(in.Seed*1009 + int64(bi)))
 		env, err := newWireEnv(fmt.Sprintf("w%d", bi))
@@ -276,6 +295,19 @@ func wireCmd(args []string) int {
 						if !(ok && (cls == "mutated-real" || cls == "truncated-real" || cls == "head-null-among-valid" || cls == "address-missing" || cls == "address-unknown" || cls == "address-ill-typed") && env.r1.S.OpLog().Len() == 1 && env.r2.S.OpLog().Len() == 0) {
 							viol(si, "changed", fmt.Sprintf("a %s message of class %s changed the contents: %s -> %s", ch, cls, before, after))
 						}
+					}
+				case "DeliverReal":
+					ch := asStr(st.Args[0])
+					mark("%s step %d: the real %s message whose damaged copies were delivered before", b.ID, si, ch)
+					env.sendTo(ch, env.w1.Addr, real)
+					if err := sim.Settle(settleTimeout, env.rn); err != nil {
+						viol(si, "stuck", "after a valid message the peer does not come to rest: "+err.Error())
+						return
+					}
+					res.Comparisons++
+					if _, ok := env.r1.S.OpLog().Get(seedHead.GetHash()); !ok {
+						viol(si, "valid-ignored", fmt.Sprintf("a valid %s message was not handled after damaged copies of it had been received", ch))
+						return
 					}
 				case "DeliverValid":
 					ch := asStr(st.Args[0])
